@@ -52,7 +52,8 @@ def make_case(rng):
     for p in case["progs"]:
         if p.get("mode") in ("gen", "write+iter") and p.get("has_close") and not p.get("fail") and not p.get("fail_exc_info") \
                 and rng.random() < 0.08:
-            p["close_raises"] = True
+            # (any kind of exception: RuntimeError, or an OSError such as a spool file that is already gone)
+            p["close_raises"] = rng.choice([True, "filenotfound", "oserror", "permission", "timeout"])
     # a response header the server refuses (the application does not catch the refusal)
     for p in case["progs"]:
         if not p.get("fail") and not p.get("fail_exc_info") and rng.random() < 0.05:
